@@ -273,6 +273,9 @@ def sweep(ctx):
     progs = corpus_programs(nprog, stdlib=0 if q else 100)
     # VERIF_SEED only selects the per-history seeds deterministically from the fixed corpus
     jobs = [(i, p, CORPUS_SEED * 1000 + i, 6 if q else 12) for i, p in enumerate(progs)]
+    # hard shapes (corpus.HARD_SNIPPETS), appended AFTER the fixed corpus so that its histories stay what they were
+    for rep in range(6 if q else 40):
+        jobs += [(100000 + 1000 * rep + i, p, CORPUS_SEED * 1000 + 100000 + 1000 * rep + i, 4 if q else 8) for i, p in enumerate(corpus.hard_snippets())]
     res = pmap(_history, jobs)
     n = 0
     for lst in res:
